@@ -182,6 +182,28 @@ theorem drain_all (n : Nat) (c : Chan α) (h : WF c) (hn : c.pending ≤ n) :
       rw [← round_all c]
       exact this
 
+theorem runOne_cap (c : Chan α) : c.runOne.cap = c.cap := by
+  unfold Chan.runOne
+  split
+  · split <;> rfl
+  · rfl
+
+theorem read_cap (c : Chan α) : c.read.cap = c.cap := by
+  unfold Chan.read
+  split
+  · rfl
+  · split <;> rfl
+
+theorem steps_cap (sched : List (Step α)) (c : Chan α) : (sched.foldl Chan.step c).cap = c.cap := by
+  induction sched generalizing c with
+  | nil => rfl
+  | cons s r ih =>
+    rw [List.foldl_cons, ih]
+    cases s
+    · rfl
+    · exact runOne_cap c
+    · exact read_cap c
+
 /-- A fresh channel of positive capacity is well-formed. -/
 theorem fresh_wf (cap : Nat) (h : 0 < cap) : WF ({ cap := cap } : Chan α) := ⟨h, by simp, by simp⟩
 
